@@ -582,6 +582,36 @@ func (r *Run) checkNumberRoute(P string, fns []*ssa.Function) {
 		}
 	}
 	r.R.Check(good && nNum >= 1, id, rule, core.FuncName(numFn), r.where(numFn), why, fmt.Sprintf("%d number exits through ParseFloat→NumberToJSON, %d literal exits", nNum, nLit), strings.Join(det, "; "))
+	// a token is rejected only for being empty, or by ParseFloat / NumberToJSON: any other error raised in this
+	// closure is a private number grammar, and the canonical form's own spelling (1e+21) must stay acceptable
+	nSet, okSet := 0, true
+	var detSet []string
+	for _, b := range numFn.Blocks {
+		if !ff.Live[b] {
+			continue
+		}
+		for _, ins := range b.Instrs {
+			c, ok := ins.(*ssa.Call)
+			if !ok {
+				continue
+			}
+			tgt := closureCallTarget(c)
+			if tgt == nil || tgt.Signature.Params().Len() != 1 || tgt.Signature.Results().Len() != 0 {
+				continue
+			}
+			// closures taking a string message are the error-setting ones; those taking an error forward ParseFloat / NumberToJSON errors
+			if bt, isB := tgt.Signature.Params().At(0).Type().Underlying().(*types.Basic); !isB || bt.Kind() != types.String {
+				continue
+			}
+			nSet++
+			if !core.HasFact(ff.At(c), "cmp(Builder.Len(_) == 0)") {
+				okSet = false
+				detSet = append(detSet, r.P.Pos(c.Pos())+": an error is raised for a token that is not empty")
+			}
+		}
+	}
+	r.R.Check(okSet && nSet >= 1, P+".number.rejects", "E2: in the literal/number closure an error with a fixed message is raised only under 'the token is empty'; every other rejection of a number comes from strconv.ParseFloat or NumberToJSON", core.FuncName(numFn), r.where(numFn),
+		"a hand-written number grammar in front of ParseFloat can reject spellings the canonical form itself produces (1e+21): the output is then not a fixed point of canonicalization", fmt.Sprintf("%d message site(s), all for the empty token", nSet), strings.Join(detSet, "; "))
 }
 
 // hasEqWith: some must-fact equates term t with something.
